@@ -179,7 +179,11 @@ def check_impl_with_spec(case, impl, model):
                 got_removed = blk[2][len("removed "):]
                 want_nodes = s.split("nodes=")[1].split(" removed=")[0]
                 want_removed = s.split(" removed=")[1]
-                if got_removed != want_removed or (got_nodes is not None and got_nodes != want_nodes):
+                left = [n for n in want_nodes.split() if not n.startswith(("sdep_", "edep_"))]
+                if got_nodes is None and left:
+                    # "yields the tour without exactly those nodes": the tour may vanish only when no activity is left
+                    bad.append(("remove-ref", "%s: the tour vanished although the reference keeps nodes=[%s]" % (ctx, want_nodes)))
+                elif got_removed != want_removed or (got_nodes is not None and got_nodes != want_nodes):
                     bad.append(("remove-ref", "%s: got nodes=[%s] removed=[%s], reference nodes=[%s] removed=[%s]"
                                 % (ctx, got_nodes, got_removed, want_nodes, want_removed)))
         elif kind == "removable":
